@@ -72,6 +72,7 @@ type Explorer struct {
 	Assumptions   map[string]bool
 	StoreViol     []string
 	Stopped       bool
+	Budget        time.Duration
 	Known         []KnownFinding
 	KnownHits     map[string]int
 	frameCheck    func(in *Interp, p *Ptr)
@@ -124,6 +125,18 @@ func (x *Explorer) noteStore(in *Interp, p *Ptr) {
 
 func (x *Explorer) Run() {
 	x.push(nil)
+	if x.Budget > 0 {
+		go func() {
+			time.Sleep(x.Budget)
+			x.mu.Lock()
+			if !x.Stopped && (len(x.work) > 0 || x.active > 0) {
+				x.Stopped = true
+				x.Inconclusive = append(x.Inconclusive, fmt.Sprintf("time budget %s exhausted after %d paths", x.Budget, len(x.Paths)))
+			}
+			x.cond.Broadcast()
+			x.mu.Unlock()
+		}()
+	}
 	var wg sync.WaitGroup
 	for w := 0; w < x.Workers; w++ {
 		wg.Add(1)
